@@ -80,20 +80,11 @@ func (h *NFSProcedureHandler) handleReaddir(body io.Reader, reply *RPCReply, aut
 	buf.Write(cookieVerf[:])
 
 	entryCount := 0
-	maxReplySize := int(count) - 100
-	if maxReplySize < 128 {
-		maxReplySize = 128
-	}
 	reachedLimit := false
 
 	for i, entry := range entries {
 		if uint64(i) < cookie {
 			continue
-		}
-
-		if buf.Len() >= maxReplySize {
-			reachedLimit = true
-			break
 		}
 
 		// Skip entries with nil attrs
@@ -104,6 +95,16 @@ func (h *NFSProcedureHandler) handleReaddir(body io.Reader, reply *RPCReply, aut
 		}
 		fileId := entry.attrs.FileId
 		entry.mu.RUnlock()
+
+		// The encoded READDIR3resok (everything after the status word) must fit in
+		// the client's count, including the list terminator and eof that follow.
+		entryName := path.Base(entry.path)
+		entrySize := 4 + 8 + 4 + (len(entryName)+3)&^3 + 8
+		// (A count too small for even one entry still gets one entry, as before.)
+		if entryCount > 0 && buf.Len()-4+entrySize+8 > int(count) {
+			reachedLimit = true
+			break
+		}
 
 		xdrEncodeUint32(&buf, 1)
 
@@ -211,19 +212,11 @@ func (h *NFSProcedureHandler) handleReaddirplus(body io.Reader, reply *RPCReply,
 
 	entryCount := 0
 	reachedLimit := false
-	maxReplySize := int(maxCount) - 200
-	if maxReplySize < 256 {
-		maxReplySize = 256
-	}
+	dirBytes := 0
 
 	for i, entry := range entries {
 		if uint64(i) < cookie {
 			continue
-		}
-
-		if buf.Len() >= maxReplySize && entryCount > 0 {
-			reachedLimit = true
-			break
 		}
 
 		// Skip entries with nil attrs
@@ -234,6 +227,19 @@ func (h *NFSProcedureHandler) handleReaddirplus(body io.Reader, reply *RPCReply,
 		}
 		entryAttrsCopy := *entry.attrs
 		entry.mu.RUnlock()
+
+		// maxcount bounds the encoded READDIRPLUS3resok (everything after the status
+		// word, including the list terminator and eof); dircount bounds the
+		// fileid+name+cookie part of the entries.
+		entryName := path.Base(entry.path)
+		dirSize := 8 + 4 + (len(entryName)+3)&^3 + 8
+		entrySize := 4 + dirSize + 4 + 84 + 4 + 4 + 8
+		// (Limits too small for even one entry still get one entry, as before.)
+		if entryCount > 0 && (buf.Len()-4+entrySize+8 > int(maxCount) || (dirCount > 0 && dirBytes+dirSize > int(dirCount))) {
+			reachedLimit = true
+			break
+		}
+		dirBytes += dirSize
 
 		xdrEncodeUint32(&buf, 1)
 
